@@ -985,6 +985,8 @@ class FuncTranslator:
             return ('(Py.%s %s)' % (meth, par(v)), 'str')
         if meth in ('isdigit', 'isalpha', 'isalnum', 'isspace', 'isupper', 'islower', 'isdecimal') and n == 0:
             return ('(Py.%s %s)' % (meth, par(v)), 'bool')
+        if meth == 'isascii' and n == 0:
+            return ('(Py.isasciiS %s)' % par(v), 'bool')
         if meth in ('startswith', 'endswith') and n == 1:
             a, at = args[0]
             if at == 'str':
